@@ -45,10 +45,14 @@ def parse_prec(out):
         p = line.split()
         if not p:
             continue
-        if p[0] in ("prec", "lassoc", "rassoc", "unary_operand", "left_unary", "right_unary", "opnames"):
+        if p[0] in ("prec", "lassoc", "rassoc", "unary_operand", "opnames", "unary_operand_check", "atomcheck"):
             t[p[0]] = p[1:] if p[0] == "opnames" else [int(x) for x in p[1:]]
-        elif p[0] in ("left_binary", "right_binary"):
-            t.setdefault(p[0], {})[int(p[1])] = [int(x) for x in p[2:]]
+        elif p[0] in ("left_binary", "right_binary", "left_unary", "right_unary"):
+            t.setdefault(p[0], {})[str(int(p[1]))] = [int(x) for x in p[2:]]
+        elif p[0] == "end":
+            t["end"] = True
+    if not t.pop("end", False):
+        raise C.CheckBroken("dl-c02 prec: truncated dump")
     return t
 
 
@@ -58,7 +62,7 @@ def coq_list(nums):
 
 def coq_source(tables, prec, module_comment):
     lines = ["(** %s *)" % module_comment,
-             "From DL Require Import Lib.Bytes Model.DenseGen.",
+             "From DL Require Import Lib.Bytes Model.DenseGen Model.Precedence.",
              "Open Scope N_scope.",
              "Definition sp_rows : list N := %s." % coq_list(tables["sp"])]
     for p in PREDS:
@@ -69,13 +73,12 @@ def coq_source(tables, prec, module_comment):
         lines.append("Definition prec_levels : list N := %s." % coq_list(prec["prec"]))
         lines.append("Definition left_assoc_flags : list N := %s." % coq_list(prec["lassoc"]))
         lines.append("Definition right_assoc_flags : list N := %s." % coq_list(prec["rassoc"]))
-        lines.append("Definition left_binary_rows : list (list N) := [%s]." % "; ".join(
-            coq_list(prec["left_binary"][i]) for i in range(16)))
-        lines.append("Definition right_binary_rows : list (list N) := [%s]." % "; ".join(
-            coq_list(prec["right_binary"][i]) for i in range(16)))
-        lines.append("Definition left_unary_flags : list N := %s." % coq_list(prec["left_unary"]))
-        lines.append("Definition right_unary_flags : list N := %s." % coq_list(prec["right_unary"]))
+        for name in ("left_binary", "right_binary", "left_unary", "right_unary"):
+            lines.append("Definition %s_rows : list (list N) := [%s]." % (name, "; ".join(
+                coq_list(prec[name][str(i)]) for i in range(16))))
         lines.append("Definition unary_operand_flags : list N := %s." % coq_list(prec["unary_operand"]))
+        lines.append("Definition ptbl : ptable := mk_ptable left_binary_rows right_binary_rows left_unary_rows "
+                     "right_unary_rows unary_operand_flags.")
     return "\n".join(lines) + "\n"
 
 
@@ -119,8 +122,6 @@ def diff_frozen(tables, prec):
     if prec and frozen.get("prec"):
         for k, v in prec.items():
             fv = frozen["prec"].get(k)
-            if isinstance(v, dict):
-                v = {str(a): b for a, b in v.items()}
             if fv != v:
                 out.append("precedence table %s differs from the frozen copy" % k)
     return out
